@@ -145,7 +145,7 @@ type CallersRule struct {
 	Line    int
 }
 
-var kwRe = regexp.MustCompile(`^(requires|ensures|assume|returns|observe|ghostset|modifies|cover|loop|results|nopanic|inline|unroll|atcall|handler|intmode|reveal|acquires|releases|lockexempt|spawned)\b`)
+var kwRe = regexp.MustCompile(`^(requires|ensures|assume|returns|observe|ghostset|modifies|cover|loop|results|nopanic|inline|unroll|atcall|handler|intmode|reveal|acquiresread|releasesread|acquires|releases|lockexempt|spawned)\b`)
 
 // readSpecLines extracts the //@ lines of a file ("\" continues a line).
 func readSpecLines(path string) ([]string, []int, error) {
@@ -492,6 +492,15 @@ func parseSpecFile(path string, ps *PkgSpec, trustedFile bool) error {
 					return fmt.Errorf("%s:%d: lockexempt needs a #label saying why", path, ln)
 				}
 				cur.LockExempt = label
+			case "acquiresread":
+				// a shared (read) acquisition: reads of what the mutex guards are allowed, writes are not
+				for _, pn := range strings.Fields(rest) {
+					cur.Acquires = append(cur.Acquires, "read:"+pn)
+				}
+			case "releasesread":
+				for _, pn := range strings.Fields(rest) {
+					cur.Releases = append(cur.Releases, "read:"+pn)
+				}
 			case "acquires":
 				cur.Acquires = append(cur.Acquires, strings.Fields(rest)...)
 			case "releases":
